@@ -363,6 +363,14 @@ fn check_len<T: El>(len: usize) -> Result<(), String> {
     arr_checks::<T, 5>(s, &mut m)?;
     arr_checks::<T, 7>(s, &mut m)?;
     arr_checks::<T, 8>(s, &mut m)?;
+    arr_checks::<T, 9>(s, &mut m)?;
+    arr_checks::<T, 15>(s, &mut m)?;
+    arr_checks::<T, 16>(s, &mut m)?;
+    arr_checks::<T, 17>(s, &mut m)?;
+    arr_checks::<T, 31>(s, &mut m)?;
+    arr_checks::<T, 32>(s, &mut m)?;
+    arr_checks::<T, 33>(s, &mut m)?;
+    arr_checks::<T, 64>(s, &mut m)?;
     // first_mut / last_mut / split_first_mut / split_last_mut
     let base = m.as_ptr() as usize;
     let sz = std::mem::size_of::<T>();
@@ -508,7 +516,9 @@ fn eval(ctx: &mut Ctx, c: Case) {
 
 fn explore(ctx: &mut Ctx) {
     let mut lens: Vec<usize> = (0..=ctx.by_tier(16, 33)).collect();
-    lens.extend_from_slice(&[64, 1000]);
+    lens.extend_from_slice(&[17, 30, 31, 32, 33, 34, 63, 64, 65, 66, 128, 129, 1000]);
+    lens.sort_unstable();
+    lens.dedup();
     for &len in &lens {
         for elem in ELEMS {
             if len > 64 && matches!(elem, Elem::Str) {
@@ -531,7 +541,7 @@ fn explore(ctx: &mut Ctx) {
         }
     }
     ctx.exhaustive_part(&format!(
-        "lengths {{0..={},64,1000}} x 5 element types x index set {{0..=len+2, usize::MAX, usize::MAX-1, isize::MAX-1..=isize::MAX+1, usize::MAX-len(+1)}} x all pairs; N in {{0,1,2,3,4,5,7,8}} for array/chunk conversions",
+        "lengths {{0..={},64,1000}} x 5 element types x index set {{0..=len+2, usize::MAX, usize::MAX-1, isize::MAX-1..=isize::MAX+1, usize::MAX-len(+1)}} x all pairs; N in {{0,1,2,3,4,5,7,8,9,15,16,17,31,32,33,64}} for array/chunk conversions",
         ctx.by_tier(16, 33)
     ));
     // zero-sized elements, more than isize::MAX of them
